@@ -358,7 +358,7 @@ class Gen:
         r = self.r
         cands, pref = [], []
         for i, rec in enumerate(self.records):
-            if rec["op"] in ("root", "obs", "copy", "repeat") or rec["op"] in model.MUTATORS or "out" not in rec:
+            if rec["op"] in ("root", "obs", "copy", "replace") or rec["op"] in model.MUTATORS or "out" not in rec:
                 continue
             ops = model.operands(rec)
             if not ops or any(sid not in self.w.slots or self.w.slots[sid].tainted for sid in ops):
@@ -369,8 +369,9 @@ class Gen:
         if not pool:
             return None
         src = r.choice(pool)
-        rec = {k: v for k, v in src.items() if k not in ("_i", "_tw", "out")}
+        rec = {k: v for k, v in src.items() if k not in ("_i", "_tw", "out", "repeat")}
         rec["out"] = self.nid()
+        rec["repeat"] = True
         return rec
 
     def g_replace(self):
